@@ -1,15 +1,28 @@
 #!/bin/sh
-# Re-run the quick check of every seeded change (seeded/*/) with the machinery as it is now.
+# Re-run the quick check of every seeded change (seeded/*/) with the machinery as it is now, on
+# scratch copies (a git worktree of /repo and a copy of /verif whose simulator depends on that
+# worktree), so /repo and /verif/sim stay usable meanwhile.
 # Output: seeded/RESULTS.tsv  (<id> <property checked> <exit> <classes>)   exit 1 = caught
 here=$(cd "$(dirname "$0")/.." && pwd)
+base=${SALL_DIR:-/tmp/sall}
+mkdir -p "$base"
+if [ ! -d "$base/repo" ]; then git -C /repo worktree add --detach "$base/repo" HEAD -q || exit 2; fi
+git -C "$base/repo" checkout -q --detach "$(git -C /repo rev-parse HEAD)" && git -C "$base/repo" checkout -q -- .
+mkdir -p "$base/verif"
+rsync -a --delete --exclude target --exclude .git --exclude replays --exclude evidence "$here/" "$base/verif/"
+sed -i "s|path = \"/repo\"|path = \"$base/repo\"|" "$base/verif/sim/Cargo.toml"
+[ -d "$base/verif/sim/target" ] || cp -a "$here/sim/target" "$base/verif/sim/target" 2>/dev/null
 out=$here/seeded/RESULTS.tsv
-: > "$out.tmp"
+: > "$base/RESULTS.tmp"
 for d in "$here"/seeded/*/; do
     id=$(basename "$d")
     prop=$(python3 -c "import json,sys;m=json.load(open(sys.argv[1]));print(m['detection'].get('caught_by_property', m['property']))" "$d/meta.json")
-    line=$("$here/tools/seedrun.sh" "$d" "$prop" 2>&1 | grep -a "^seedrun" | tail -1)
-    st=$(echo "$line" | sed 's/.*exit=\([0-9]*\).*/\1/')
-    cl=$(echo "$line" | sed 's/.*classes: //')
-    echo "$id	$prop	$st	$cl" | tee -a "$out.tmp"
+    git -C "$base/repo" checkout -q -- .
+    if ! git -C "$base/repo" apply "$d/patch.diff" 2>/dev/null; then echo "$id	$prop	patch-failed	" | tee -a "$base/RESULTS.tmp"; continue; fi
+    res=$(FUSIM_ROOT="$base/verif" "$base/verif/check" "$prop" quick 2>&1)
+    st=$?
+    cl=$(echo "$res" | grep -a '^violation class=' | sed 's/^violation class=\([^ ]*\).*/\1/' | tr '\n' ' ')
+    echo "$id	$prop	$st	$cl" | tee -a "$base/RESULTS.tmp"
 done
-mv "$out.tmp" "$out"
+git -C "$base/repo" checkout -q -- .
+cp "$base/RESULTS.tmp" "$out"
